@@ -39,6 +39,41 @@ Section LvInd.
     end.
 End LvInd.
 
+(* induction principle for types (nested lists in TTup / TUnion) *)
+Section TyInd.
+  Variable P : ty -> Prop.
+  Hypothesis Hatom : P TAtom.
+  Hypothesis Hleaf : forall k, P (TLeaf k).
+  Hypothesis Hany : P TAny.
+  Hypothesis Hpass : P TPass.
+  Hypothesis Hopt : forall t, P t -> P (TOpt t).
+  Hypothesis Hseq : forall o t, P t -> P (TSeq o t).
+  Hypothesis Htupv : forall t, P t -> P (TTupV t).
+  Hypothesis Htup : forall ts, Forall P ts -> P (TTup ts).
+  Hypothesis Hmap : forall o kt, P kt -> forall vt, P vt -> P (TMap o kt vt).
+  Hypothesis Hdc : forall c, P (TDC c).
+  Hypothesis Hunion : forall ts, Forall P ts -> P (TUnion ts).
+
+  Fixpoint ty_ind' (t: ty) : P t :=
+    let go := fix go (ts: list ty) : Forall P ts :=
+                match ts with
+                | [] => Forall_nil _
+                | x :: r => Forall_cons _ (ty_ind' x) (go r) end in
+    match t with
+    | TAtom => Hatom
+    | TLeaf k => Hleaf k
+    | TAny => Hany
+    | TPass => Hpass
+    | TOpt t' => Hopt t' (ty_ind' t')
+    | TSeq o t' => Hseq o t' (ty_ind' t')
+    | TTupV t' => Htupv t' (ty_ind' t')
+    | TTup ts => Htup ts (go ts)
+    | TMap o kt vt => Hmap o kt (ty_ind' kt) vt (ty_ind' vt)
+    | TDC c => Hdc c
+    | TUnion ts => Hunion ts (go ts)
+    end.
+End TyInd.
+
 (* ------------------------------------------------------------------ *)
 (* generic facts about the state-threading combinators *)
 Lemma map_st_flat {A B C: Type} (f: A -> nat -> B * nat) (h: B -> list C) (g: A -> list C) (n0: nat) (xs: list A) :
@@ -96,12 +131,16 @@ Proof. unfold as_items. induction ys; simpl; [reflexivity | now rewrite IHys]. Q
 (* the generator's identity test does not depend on the holder's dialect support *)
 Lemma is_id_cp_hsup E N h1 h2 t : is_id (cp E N h1 t) = is_id (cp E N h2 t).
 Proof.
-  revert h1 h2. induction t; intros h1 h2; simpl; try reflexivity.
+  revert h1 h2. induction t as [| lk | | | t IHt | o t IHt | t IHt | ts IHts | o t1 IHt1 t2 IHt2 | c0 | us IHus] using ty_ind';
+    intros h1 h2; simpl; try reflexivity.
   - unfold seq_expr. rewrite (IHt h1 h2). destruct (is_id (cp E N h2 t)); [| reflexivity].
     destruct (inN N o); [reflexivity |]. destruct (origin_eqb o OList); reflexivity.
   - unfold map_expr. rewrite (IHt1 h1 h2), (IHt2 h1 h2).
     destruct (is_id (cp E N h2 t1) && is_id (cp E N h2 t2)); [| reflexivity].
     destruct (inN N o); [reflexivity |]. destruct (origin_eqb o ODict); reflexivity.
+  - assert (H: forallb is_id (map (cp E N h1) us) = forallb is_id (map (cp E N h2) us)).
+    { induction IHus as [| x r Hx Hr IHr]; simpl; [reflexivity |]. now rewrite (Hx h1 h2), IHr. }
+    now rewrite H.
 Qed.
 
 Lemma is_id_IId e : is_id e = true -> e = IId.
@@ -151,7 +190,7 @@ Section PackShare.
   Lemma pack_share_all : forall v, P_pack v.
   Proof.
     induction v as [z | | z | l | k l xs IH | k l kvs IH | c l fs IH] using lv_ind';
-      intros call N hsup t; induction t as [| lk | | | t' IHt | o t' IHt | t' IHt | ts | o kt IHk vt IHv | c0];
+      intros call N hsup t; induction t as [| lk | | | t' IHt | o t' IHt | t' IHt | ts IHts | o kt IHk vt IHv | c0 | us IHus] using ty_ind';
       intros n Hc Ho Hn; try (simpl in Hc; discriminate Hc).
     (* VAtom *)
     - simpl. split; [reflexivity | lia].
@@ -333,6 +372,32 @@ Section UnpackShare.
   Lemma ru_id w n : run_unpack E w UId n = (w, n).
   Proof. destruct w; reflexivity. Qed.
 
+  Lemma ru_union w ms n :
+    run_unpack E w (UUnion ms) n =
+    pick (fun ce : nat * uir => match ce with (c, _) => cls_fits c w end)
+         (fun ce : nat * uir => match ce with (_, e') => run_unpack E w e' n end) (VNone, n) ms.
+  Proof. destruct w; reflexivity. Qed.
+
+  Lemma wconf_union w us :
+    wconforms E w (TUnion us) = pick (fun t' => cls_fits (tcls t') w) (wconforms E w) false us.
+  Proof. destruct w; reflexivity. Qed.
+
+  Lemma anyref_union w us :
+    anyref E w (TUnion us) = pick (fun t' => cls_fits (tcls t') w) (anyref E w) [] us.
+  Proof. destruct w; reflexivity. Qed.
+
+  (* a union decodes with the member whose wire class fits: whatever holds for the members holds for it *)
+  Lemma union_case w us n :
+    Forall (fun t => forall n, wconforms E w t = true -> all_old n0 w = true -> n0 <= n ->
+                     let (r, n') := run_unpack E w (cu t) n in maxold n0 r = anyref E w t /\ n <= n') us ->
+    wconforms E w (TUnion us) = true -> all_old n0 w = true -> n0 <= n ->
+    let (r, n') := run_unpack E w (cu (TUnion us)) n in maxold n0 r = anyref E w (TUnion us) /\ n <= n'.
+  Proof.
+    intros HF Hc Ho Hn. cbn [cu]. rewrite ru_union, anyref_union. rewrite wconf_union in Hc.
+    induction HF as [| t r Ht Hr IH]; simpl in *; [discriminate Hc |].
+    destruct (cls_fits (tcls t) w); [apply Ht; auto | apply IH; auto].
+  Qed.
+
   Definition P_unpack (w: lv) : Prop :=
     forall t n,
       wconforms E w t = true -> all_old n0 w = true -> n0 <= n ->
@@ -347,10 +412,11 @@ Section UnpackShare.
   Lemma unpack_share_all : forall w, P_unpack w.
   Proof.
     induction w as [z | | z | l | k l xs IH | k l kvs IH | c l fs IH] using lv_ind';
-      intros t; induction t as [| lk | | | t' IHt | o t' IHt | t' IHt | ts | o kt IHk vt IHv | c0];
+      intros t; induction t as [| lk | | | t' IHt | o t' IHt | t' IHt | ts IHts | o kt IHk vt IHv | c0 | us IHus] using ty_ind';
       intros n Hc Ho Hn; try (simpl in Hc; discriminate Hc);
       try (apply U_id; auto; fail);
-      try (cbn [cu]; rewrite ru_opt; apply IHt; auto; fail).
+      try (cbn [cu]; rewrite ru_opt; apply IHt; auto; fail);
+      try (apply union_case; auto; fail).
     - simpl. split; [reflexivity | lia].
     - simpl. split; [reflexivity | lia].
     - simpl. split; [reflexivity | lia].
